@@ -874,6 +874,7 @@ func main() {
 		for name, data := range unitOut {
 			writeIfChanged(filepath.Join(filepath.Dir(*funcsPath), name), data)
 		}
+		writeIfChanged(filepath.Join(filepath.Dir(*funcsPath), "GenMeta.v"), metaOut)
 	}
 	if *litPath != "" {
 		writeIfChanged(*litPath, collectLiterals(root, types, uuid))
